@@ -87,6 +87,12 @@ func (j *JWK) UnmarshalJSON(jwkBytes []byte) error {
 
 		*j = *jwk
 	} else {
+		// the JOSE library pads or truncates the 'x' of an Ed25519 key to the key size and does not look at the bytes
+		if key.Kty == "OKP" && key.Crv == "Ed25519" &&
+			(key.X == nil || len(key.X.data) != ed25519.PublicKeySize || !isEd25519Point(key.X.data)) {
+			return fmt.Errorf("unable to read JWK: %w", ErrInvalidKey)
+		}
+
 		var joseJWK jose.JSONWebKey
 
 		err := json.Unmarshal(jwkBytes, &joseJWK)
